@@ -505,6 +505,19 @@ def g_solids(ctx, rng, i):
         if ar is not None:
             want = 0.5 * n * r * r * math.sin(2 * math.pi / n)
             ctx.judge("area", abs(float(ar) - want) <= 1e-7 * max(1, want), [c, r, n], what=f"regular polygon area = {ar}, n r^2 sin(2pi/n)/2 = {want}", op="RegularPolygon.area", nontrivial=True)
+        # the measures of the polygon after it has been moved (an object returned by the library, queried before the move)
+        off = gen.nonzero_vec(rng, len(c), 6).astype(float)
+        for mv in (lambda: rp + g.Point(*off), lambda: g.translation(*off) * rp):
+            mp = _try(mv)
+            if mp is None or not hasattr(mp, "radius"):
+                continue
+            rad, inr, cen, ar = _try(lambda: mp.radius), _try(lambda: mp.inradius), _try(lambda: mp.center), _try(lambda: mp.area)
+            cc = _cartf(cen.array) if cen is not None else None
+            ok = (rad is not None and abs(float(rad) - r) <= 1e-7 * max(1, r) and inr is not None and abs(float(inr) - r * math.cos(math.pi / n)) <= 1e-7 * max(1, r)
+                  and cc is not None and np.allclose(cc, c + off, atol=1e-6 * max(1, np.abs(c + off).max()))
+                  and ar is not None and abs(float(ar) - 0.5 * n * r * r * math.sin(2 * math.pi / n)) <= 1e-7 * max(1, r * r))
+            ctx.judge("isometry", bool(ok), [c, r, n, off], what=f"regular polygon moved by {off}: radius {rad}, inradius {inr}, center {cc}, area {ar}; expected radius {r}, center {c + off}",
+                      op="RegularPolygon after translation", nontrivial=True)
 
 
 GROUPS = [
